@@ -19,7 +19,7 @@ theorem constant_delivers_identity (fuel : Nat) (st : State) (σ : Scope) (name 
     it reads the store *at evaluation time*, whenever the macro was (last) defined. -/
 theorem macro_reads_store_at_use (fuel : Nat) (st : State) (σ : Scope) (name : String) :
     evalVal (fuel + 1) st σ (.macro name) =
-      callCfg fuel st State.macroSel (if name.isEmpty then [] else name.splitOn "/") [] [] := by
+      callCfg fuel st State.macroSel (if name.isEmpty then [] else splitChar name '/') [] [] := by
   simp [evalVal]
 
 /-- Two states that differ only in *how* they were reached agree on every evaluation: the
@@ -66,9 +66,9 @@ theorem constant_clash_iff (st : State) (h : SelMap.Inv st.constants) (name : Se
 /-- `%name` at parse time: the unique constant it abbreviates, an error when the abbreviation is
     ambiguous, a macro otherwise. -/
 theorem resolve_spec (st : State) (name : String) :
-    (st.constants.matching (name.splitOn ".") = [] → st.resolveMacro name = .ok (.macro name)) ∧
-    (∀ full, st.constants.matching (name.splitOn ".") = [full] → st.resolveMacro name = .ok (.const full)) ∧
-    (∀ a b rest, st.constants.matching (name.splitOn ".") = a :: b :: rest →
+    (st.constants.matching (splitChar name '.') = [] → st.resolveMacro name = .ok (.macro name)) ∧
+    (∀ full, st.constants.matching (splitChar name '.') = [full] → st.resolveMacro name = .ok (.const full)) ∧
+    (∀ a b rest, st.constants.matching (splitChar name '.') = a :: b :: rest →
         st.resolveMacro name = .error .valueError) := by
   refine ⟨?_, ?_, ?_⟩
   · intro h; simp [State.resolveMacro, h]
@@ -78,7 +78,7 @@ theorem resolve_spec (st : State) (name : String) :
 /-- Finalizing rejects a macro that is referenced but never bound (in its own scope) … -/
 theorem finalize_rejects_unbound_macro (st : State) (hl : st.locked = false) (name : String)
     (huse : Val.macro name ∈ State.allValues st.config)
-    (hunbound : AList.contains ((if name.isEmpty then [] else name.splitOn "/"), State.macroSel)
+    (hunbound : AList.contains ((if name.isEmpty then [] else splitChar name '/'), State.macroSel)
                   st.config = false) :
     step st .finalize = (st, .err .valueError) := by
   have hbad : st.builtinHooksOk = false := by
